@@ -442,7 +442,9 @@ def check_C03(ctx):
                     res.finding(key, f"attribute {k} supplied {v!r} parses back as {back[k]!r}", dict(op=l[:3000]))
                 elif k not in back and v == "" and ent["defn"].get(k) == "CH":
                     res.finding("class=empty-CH-payload", f"attribute {k} supplied '' is absent from the parsed message (zero-length payload is read as None)", dict(op=l[:3000]))
-                elif k not in back:
+                elif k not in back and lay.names.get(k, (k, []))[1] == []:
+                    # (members of repeating groups exist only as far as the counts say — ESF-MEAS adds one for
+                    #  calibTtagValid — so only un-indexed attributes are required to come back)
                     res.finding(f"def={nm};field={base_of(k)};class=supplied-attribute-lost", f"attribute {k} supplied {v!r} is absent from the parsed message", dict(op=l[:3000]))
             for k, v in back.items():
                 if k not in kw and not is_blank(v):
